@@ -390,6 +390,24 @@ def _defrag_histories(tier, seed, rng):
         ops.append(rec("P", 22, 0x0303, bytes(16640))) # refused
         ops.append(rec("P", 22, 0x0303, b""))          # still below: accepted, still incomplete
         add(ops, origin="oversize")
+    # the same stream with records inside the record-length cap (implementation only: origin "stress" is not run
+    # through the extracted model, which would re-parse megabytes on every call); decided by the accumulate-then-parse
+    # oracle: refusals at the limit leave the buffer unchanged, a fragment that still fits is accepted afterwards
+    ops, size = [rec("P", 22, 0x0303, hdr + bytes(60))], 64
+    while size + 16384 < total - 16384:
+        ops.append(rec("P", 22, 0x0303, bytes(16384))); size += 16384
+    ops.append(rec("P", 22, 0x0303, bytes(total - size - 100))); size = total - 100
+    ops.append(rec("P", 22, 0x0303, bytes(100)))       # would reach exactly 10 MiB: refused, state unchanged
+    ops.append(rec("P", 23, 0x0303, bytes(5)))         # foreign type: refused
+    ops.append(rec("P", 22, 0x0303, bytes(16384)))     # refused
+    ops.append(rec("P", 22, 0x0303, bytes(50))); size += 50   # fits: accepted, still incomplete
+    ops.append(rec("N", 22, 0x0303, bytes(5)))         # nocopy while in progress: refused
+    ops.append(rec("P", 22, 0x0303, bytes(50)))        # would reach 10 MiB again: refused
+    ops.append(rec("P", 22, 0x0303, bytes(49))); size += 49   # 10 MiB - 1: accepted
+    ops.append(rec("P", 22, 0x0303, bytes(1)))         # refused
+    ops.append("R")
+    ops.append(rec("P", 22, 0x0303, bytes([14, 0, 0, 0])))    # fresh again: ServerHelloDone parses at once
+    add(ops, origin="stress")
     return out
 
 def _defrag_items(out):
@@ -601,6 +619,8 @@ def post_oracle(pid, cases, outs):
                _chain_oracle(cases, outs, binp, "parse_dtls_plaintext_records", "parse_dtls_plaintext_record")
     if pid == "C06": return _append_oracle(cases, outs)
     if pid not in ("C07",): return fails
+    import vlib
+    fails += _defrag_refinement(cases, outs, vlib.harness_paths("default")[2])
     by_line = {c.line: o for c, o in zip(cases, outs)}
     for c, o in zip(cases, outs):
         if not c.expect.startswith("defrag-tail:") or not o or not o.startswith("(defrag"): continue
@@ -616,6 +636,131 @@ def post_oracle(pid, cases, outs):
         if got != want:
             fails.append((c, o, "after a completed message / reset the parser must behave like a fresh one: continuation alone gives %s" % ref))
     return fails
+
+MAX_RECORD_DATA = 10 * 1024 * 1024
+def _defrag_refinement(cases, outs, binp):
+    """C07, the property's own statement as an oracle on the implementation alone: every history must equal the
+    abstract 'accumulate same-type fragments until the one-shot payload parser succeeds on their concatenation'
+    machine, where the one-shot parser is the implementation's own parse_tls_record_with_header (asked in a second
+    harness run on the concatenations).  Compared per call: result (modulo slice addresses; Incomplete by class),
+    defrag_in_progress(), buffer length."""
+    import vlib
+    hist = [(k, c.line.split(" ")[1:]) for k, c in enumerate(cases)
+            if c.line.startswith("defrag ") and outs[k] and outs[k].startswith("(defrag") and "(panic)" not in outs[k]]
+    def known(ct, acc):
+        # a handshake payload whose first message is cut short by the end of the payload: many1(complete(..)) answers
+        # Error(Complete) (C03); used for the oversize streams so that megabytes need not be re-parsed for the oracle
+        return ct == 22 and len(acc) >= 4 and int.from_bytes(acc[1:4], "big") > len(acc) - 4 and len(acc) > 100000
+    def walk(ops, ask):
+        """generator over expected (kind, want) per op; ask(ct, ver, ln, data) -> one-shot output or None (first pass)"""
+        cur, acc, blen, exp = None, b"", 0, []
+        for op in ops:
+            f = op.split(",")
+            if len(f) < 5:
+                cur, acc, blen = None, b"", 0; exp.append(("reset", None, 0, 0)); continue
+            kind, ct, ver, ln = f[0], int(f[1]), int(f[2]), int(f[3])
+            data = bytes.fromhex(f[4]) if f[4] != "-" else b""
+            if cur is not None and kind == "N":
+                exp.append(("is", "(fail NonEmpty", 1, blen)); continue
+            if cur is None:
+                r = ask(ct, ver, ln, data)
+                if r is None: exp.append(("?", None, 0, blen)); continue
+                cls = r[1:r.index(" ")] if " " in r else r
+                complete_err = cls in ("err", "fail") and r.split(" ")[1] == "Complete"
+                if kind == "N" or ct in (20, 21):
+                    exp.append(("inc", None, 0, blen) if complete_err else ("eq", r, 0, blen)); continue
+                if cls == "inc" or complete_err:
+                    cur, acc, blen = ct, data, len(data); exp.append(("inc", None, 1, blen))
+                else:
+                    exp.append(("eq", r, 0, blen))
+                continue
+            if ct != cur:
+                exp.append(("is", "(err Tag", 1, blen)); continue
+            if len(acc) + len(data) >= MAX_RECORD_DATA:
+                exp.append(("is", "(err TooLarge", 1, blen)); continue
+            acc = acc + data; blen = len(acc)
+            r = "(err Complete @+)" if known(ct, acc) else ask(ct, ver, len(acc) & 0xffff, acc)
+            if r is None: exp.append(("?", None, 1, blen)); continue
+            cls = r[1:r.index(" ")] if " " in r else r
+            if cls == "ok":
+                cur = None; exp.append(("eq", r, 0, blen))
+            elif cls in ("err", "fail") and r.split(" ")[1] == "Complete": exp.append(("inc", None, 1, blen))
+            elif cls == "inc": exp.append(("inc", None, 1, blen))
+            else: exp.append(("eq", r, 1, blen))
+        return exp
+    # the questions depend on earlier answers (state), so iterate to a fixpoint: at most one new question per op and round
+    answers = {}
+    for _round in range(40):
+        need = []
+        def ask(ct, ver, ln, data):
+            q = "parse_tls_record_with_header %d %d %d %s" % (ct, ver, ln, data.hex() or "-")
+            if q in answers: return answers[q]
+            need.append(q); return None
+        for k, ops in hist: walk(ops, ask)
+        need = sorted(set(need))
+        if not need: break
+        res, _ = vlib.run_lines(binp, need, label="oneshot")
+        for q, o in zip(need, res): answers[q] = vlib.strip_offsets(o or "(none)")
+    fails = []
+    for k, ops in hist:
+        exp = walk(ops, lambda ct, ver, ln, data: answers.get("parse_tls_record_with_header %d %d %d %s" % (ct, ver, ln, data.hex() or "-")))
+        items = _defrag_items(outs[k])
+        for j, ((kind, want, busy, blen), (body, p, b)) in enumerate(zip(exp, items)):
+            if kind == "?": break
+            sb = vlib.strip_offsets(body)
+            bad = None
+            if kind == "reset": bad = None if (body == "(reset)" and p == "0" and b == 0) else "reset() must give the initial state"
+            elif kind == "is" and not body.startswith(want): bad = "must be refused with %s)" % want
+            elif kind == "inc" and not body.startswith("(inc"): bad = "must answer Incomplete (the accumulated payload is not complete yet)"
+            elif kind == "eq" and sb != want: bad = "must return what the one-shot parser returns on the accumulated payload: %s" % want[:200]
+            if not bad and kind != "reset" and (int(p) != busy or b != blen):
+                bad = "state after the call must be in_progress=%d buffer=%d bytes (got %s, %d)" % (busy, blen, p, b)
+            if bad:
+                fails.append((cases[k], outs[k][:2000], "accumulate-then-parse: call %d (%s) %s; got %s" % (j + 1, ops[j][:60], bad, body[:200])))
+                break
+    return fails
+
+def _record_extremes(rng, entries=("parse_tls_plaintext", "parse_tls_record_with_header")):
+    """records at the extremes the framing allows, with the expectation written out: as many messages as fit under
+    the record-length cap (one-byte CCS, two-byte alerts, four-byte handshake messages), and payload lengths at and
+    around the cap for every content type; one-step and two-step parsing"""
+    from vlib import Case
+    out = []
+    CAP = 16384 + 256
+    def both(ct, payload, msgs_one, msgs_two, origin="extreme", rem2="@_+0"):
+        n = len(payload)
+        hdr = bytes([ct, 3, 3, n >> 8, n & 255])
+        if "parse_tls_plaintext" in entries:
+            out.append(Case("parse_tls_plaintext %s" % (hdr + payload).hex(), "(ok @_+0 (Plaintext (Hdr %d 771 %d) [%s]))" % (ct, n, msgs_one), origin))
+        if "parse_tls_record_with_header" in entries:
+            out.append(Case("parse_tls_record_with_header %d 771 %d %s" % (ct, n, payload.hex() or "-"), "(ok %s [%s])" % (rem2, msgs_two), origin))
+        if "tls_parser_many" in entries:
+            out.append(Case("tls_parser_many %s" % (hdr + payload).hex(), "(ok @_+0 [(Plaintext (Hdr %d 771 %d) [%s])])" % (ct, n, msgs_one), origin))
+    counts = [1, 2, 3, 255, 256, 257, 1023, 1024, 1025, 2047, 2048, 2049, 4095, 4096, 4097, 8191, 8192, 8193]
+    for n in counts + [CAP]:
+        m = " ".join(["(ChangeCipherSpec)"] * n); both(20, b"\x01" * n, m, m, "extreme" if n <= 4097 else "stress")
+    for n in counts + [CAP // 2]:
+        if 2 * n > CAP: continue
+        lv = [(rng.randrange(256), rng.randrange(256)) for _ in range(n)]
+        m = " ".join("(Alert %d %d)" % x for x in lv); both(21, b"".join(bytes(x) for x in lv), m, m, "extreme" if n <= 4097 else "stress")
+    for n in counts + [CAP // 4]:
+        if 4 * n > CAP: continue
+        ks = [rng.choice([0, 14]) for _ in range(n)]
+        m = " ".join("(Handshake (HelloRequest))" if k == 0 else "(Handshake (ServerDone #_:))" for k in ks)
+        both(22, b"".join(bytes([k, 0, 0, 0]) for k in ks), m, m, "extreme" if n <= 4097 else "stress")
+    for L in (16383, 16384, 16385, CAP - 1, CAP):
+        blob = bytes(rng.randrange(256) for _ in range(L))
+        both(23, blob, "(ApplicationData #5:%s)" % blob.hex(), "(ApplicationData #0:%s)" % blob.hex())
+        body = blob[:L - 4]
+        both(22, bytes([20, 0, (L - 4) >> 8, (L - 4) & 255]) + body, "(Handshake (Finished #9:%s))" % body.hex(), "(Handshake (Finished #4:%s))" % body.hex())
+        pl = rng.choice([0, 1, L - 3 - 16, L - 3])
+        hb = bytes([1, pl >> 8, pl & 255]) + blob[:L - 3]
+        both(24, hb, "(Heartbeat 1 %d #%s:%s)" % (pl, "8" if pl else "_", blob[:pl].hex()), "(Heartbeat 1 %d #%s:%s)" % (pl, "3" if pl else "_", blob[:pl].hex()),
+             rem2=("@_+0" if pl == L - 3 else "@%d+%d" % (3 + pl, L - 3 - pl)))   # two-step parsing returns the padding as remainder
+    if "parse_tls_plaintext" in entries:
+        for ct in (20, 21, 22, 23, 24, 99):
+            out.append(Case("parse_tls_plaintext %s" % (bytes([ct, 3, 3, (CAP + 1) >> 8, (CAP + 1) & 255]) + bytes(CAP + 1)).hex(), "(err TooLarge @5+%d)" % (CAP + 1), "extreme"))
+    return out
 
 def _kx_sweeps(tier, rng):
     """all 65536 named groups and all 256 curve types (the property's own quantifier), with spec expectations"""
@@ -836,6 +981,28 @@ def _stress_cases(tier, rng):
         add(e, b"\x00\x2f" + u16(L) + (b"\x00\x00\x00\x00" * (L // 4))[:L])           # OID filters
         add(e, b"\x00\x12" + u16(L) + u16(L - 2) + b"\x00" * (L - 2))
     add("parse_tls_extension_alpn_content", u16(L) + b"\x00" * L)
+    # text fields that Debug decodes as UTF-8 (SNI host names, ALPN protocol names): multi-byte characters at every
+    # alignment, so that any byte-offset arithmetic on the decoded string meets a character boundary problem; plus
+    # malformed UTF-8 (truncated sequence, lone continuation, overlong, surrogate, > U+10FFFF)
+    for ch in ("\u00e9", "\u20ac", "\U0001f600", "\u0301"):
+        for k in range(len(ch.encode()) ):
+            for total in (40, 300, 600, 1100, 4200, 65000):
+                name = (b"a" * k + ch.encode() * (total // len(ch.encode())))
+                sni = b"\x00" + u16(len(name)) + name
+                for e in ("parse_tls_extension", "parse_tls_client_hello_extension"):
+                    add(e, b"\x00\x00" + u16(len(sni) + 2) + u16(len(sni)) + sni)
+                if total <= 300:
+                    nm = name[:255]
+                    al = bytes([len(nm)]) + nm
+                    add("parse_tls_extension", b"\x00\x10" + u16(len(al) + 2) + u16(len(al)) + al)
+    for bad in (b"\xc3", b"\x80", b"\xc0\xaf", b"\xed\xa0\x80", b"\xf4\x90\x80\x80", b"\xe2\x82", b"ab\xff", b"\xf0\x9f\x98"):
+        for pre in (b"", b"a" * 254, b"a" * 255, b"\xc3\xa9" * 127):
+            name = pre + bad
+            sni = b"\x00" + u16(len(name)) + name
+            add("parse_tls_extension", b"\x00\x00" + u16(len(sni) + 2) + u16(len(sni)) + sni)
+            if len(name) <= 255:
+                al = bytes([len(name)]) + name
+                add("parse_tls_extension", b"\x00\x10" + u16(len(al) + 2) + u16(len(al)) + al)
     add("parse_ct_signed_certificate_timestamp_list", u16(L) + b"\x00\x00" * (L // 2))
     sct = b"\x00\x2f" + b"\x00" + b"\x11" * 32 + b"\x00" * 8 + b"\x00\x00" + b"\x04\x03" + b"\x00\x00"
     add("parse_ct_signed_certificate_timestamp_list", u16(len(sct) * 1300) + sct * 1300)
@@ -868,14 +1035,16 @@ def _stress_cases(tier, rng):
 
 def extra_cases(pid, tier, seed, rng):
     if pid == "C15": return _hello_cases(tier, seed, rng)
+    if pid == "C03": return _record_extremes(rng)
+    if pid == "C16": return _record_extremes(rng, entries=("tls_parser_many",))
     if pid == "C18": return _nt_cases(tier, rng) + _cipher_cases(tier, rng) + _state_cells(tier, rng) + _defrag_histories(tier, seed, rng)[:1500]
-    if pid == "C01": return _stress_cases(tier, rng) + _defrag_histories(tier, seed, rng) + _length_sweep("quick", rng)
+    if pid == "C01": return _stress_cases(tier, rng) + _defrag_histories(tier, seed, rng) + _length_sweep("quick", rng) + _record_extremes(rng)
     if pid == "C09": return _ser_cases(tier, rng)
     if pid == "C05": return _ext_type_sweep(tier, rng)
     if pid == "C13": return _kx_sweeps(tier, rng)
     if pid == "C11": return _enum_sweeps(tier, rng)
     if pid == "C07": return _defrag_histories(tier, seed, rng)
-    if pid == "C02": return _length_sweep(tier, rng)
+    if pid == "C02": return _length_sweep(tier, rng) + [c for c in _record_extremes(rng, entries=("parse_tls_plaintext",)) if c.origin == "extreme"]
     if pid == "C12": return _cipher_cases(tier, rng)
     if pid == "C17": return _nt_cases(tier, rng)
     if pid == "C08": return _state_cells(tier, rng)
